@@ -226,6 +226,36 @@ theorem heap_handle_live (h : Heap) (root x v : Addr) (segs : List String) (ha :
       lookupSegsH h root segs = childH h x last :=
   ⟨ancestorH_reach segs root x ha, ancestorH_spec v segs root x ha⟩
 
+/-- HANDLES STAY ATTACHED (frame at pointer level): in a tree-shaped document, `AddValueAt(ps, v)`
+    does not move what `Lookup(qs)` finds when the two paths diverge by key after a common prefix
+    (`Diverge`, as in `addValueAt_frame`): the handle obtained at `qs` is still the node stored there —
+    pointer-identical, not merely equal in content. -/
+theorem heap_handle_stays (h h' : Heap) (rank : Addr → Nat) (c v x : Addr) (ps qs : List String)
+    (hc : h.Closed) (hr : h.RankedBy rank) (hn : h.NilOk) (hm : h.MapsOk) (hs : SibSep h c) (hv : v < h.size)
+    (hcl : c < h.size) (hd : Diverge ps qs) (he : addAtSegsH h c ps v = some h')
+    (hl : lookupSegsH h c qs = some x) : lookupSegsH h' c qs = some x :=
+  addAtSegsH_lookup_frame hc hr hn hm hv ps qs hd c h' x hs hcl he hl
+
+/-- `SibSep` cannot be dropped: when ONE container object is attached at two places
+    (`dagB`: root #2 = {p: #1, q: #1}), `AddValueAt("p.z", v)` also changes what is found below `q` —
+    the document is no longer what the value-level `addValueAt` (an edit of a plain TREE) predicts.
+    (A plain Go `map[string]any` holding one inner map twice behaves the same way.) -/
+def dagB : Heap := ⟨[.leaf Scalar.null, .cont [], .cont [("p", 1), ("q", 1)], .leaf ⟨"string", "v"⟩]⟩
+
+theorem heap_shared_node_counterexample :
+    dagB.Closed ∧ dagB.Acyclic ∧ dagB.MapsOk ∧ ¬ SibSep dagB 2 ∧
+    ((addValueAtH dagB 2 "p.z" 3).bind fun h' => abs h' 2) =
+      some (.cont [("p", .cont [("z", .leaf ⟨"string", "v"⟩)]), ("q", .cont [("z", .leaf ⟨"string", "v"⟩)])]) ∧
+    (abs dagB 2).map (fun n => match n with
+      | .cont d => Node.cont (addValueAt d "p.z" (.leaf ⟨"string", "v"⟩))
+      | n => n) =
+      some (.cont [("p", .cont [("z", .leaf ⟨"string", "v"⟩)]), ("q", .cont [])]) := by
+  refine ⟨closed_of_all (by decide), ⟨fun a => if a = 2 then 1 else 0, rankedBy_of_all (by decide)⟩,
+    mapsOk_of_all (by decide +kernel), ?_, by decide +kernel, by decide +kernel⟩
+  intro hs
+  exact hs 2 _ (.refl _) (show dagB.get? 2 = some (.cont [("p", 1), ("q", 1)]) from rfl) 0 1 1 1 rfl rfl (by decide)
+    1 (.refl _) (.refl _) ⟨.cont [], rfl, rfl⟩
+
 /-- DETACHED HANDLES: any builder call (`op`, with any value node) made on a handle whose graph shares
     no container / list with the graph below `root` leaves the document below `root` unchanged — at
     every fuel, i.e. `abs root` is what it was. -/
